@@ -27,11 +27,30 @@ func MkTask(check, mode string, w *wf.WF, scenario string, src SrcSpec, W, bound
 
 // MkTaskPrimed: as MkTask, with another parallel workflow called first in every execution.
 func MkTaskPrimed(check, mode string, w *wf.WF, scenario string, src SrcSpec, W, bound, policy, shards int, prime string, out *[]e1.Task) {
-	p, _ := json.Marshal(Params{Workflow: w.Name, Scenario: scenario, Src: src, Mode: mode, Prime: prime})
-	name := fmt.Sprintf("%s/%s/W%d/%s/%s/b%d/p%d", mode, w.Name, W, scenario, src, bound, policy)
-	if prime != "" {
-		name = fmt.Sprintf("%s/%s-after-%s/W%d/%s/%s/b%d/p%d", mode, w.Name, prime, W, scenario, src, bound, policy)
+	MkTaskX(check, mode, w, scenario, src, W, bound, policy, shards, Params{Prime: prime}, out)
+}
+
+// MkTaskX: as MkTask with the extra parameters (Prime, Twice, Repeat) taken from x.
+func MkTaskX(check, mode string, w *wf.WF, scenario string, src SrcSpec, W, bound, policy, shards int, x Params, out *[]e1.Task) {
+	x.Workflow, x.Scenario, x.Src, x.Mode = w.Name, scenario, src, mode
+	p, _ := json.Marshal(x)
+	wn := w.Name
+	if x.Prime != "" {
+		wn += "-after-" + x.Prime
 	}
+	if x.Twice {
+		wn += "-twice"
+	}
+	if x.Repeat > 0 {
+		wn += fmt.Sprintf("-x%d", x.Repeat+1)
+	}
+	if x.JudgeSeq {
+		wn += "(seq)"
+	}
+	if x.Pair != "" {
+		wn += "-beside-" + x.Pair
+	}
+	name := fmt.Sprintf("%s/%s/W%d/%s/%s/b%d/p%d", mode, wn, W, scenario, src, bound, policy)
 	for sh := 0; sh < shards; sh++ {
 		*out = append(*out, e1.Task{Check: check, Name: name, Params: p, Bound: bound, Policy: policy, W: W, Shard: sh, NShards: shards, CostAll: true})
 	}
